@@ -1,6 +1,7 @@
 package main
 
 import (
+	"os"
 	"fmt"
 	"go/token"
 	"go/types"
@@ -1271,7 +1272,7 @@ func (c *Ctx) checkM11(mi *modelInfo) {
 		return
 	}
 	sentinel := c.sentinel(pkgOps, "ErrUnsupportedOpsetVersion")
-	bad := ""
+	badHit, badMiss := "", ""
 	hit, miss := 0, 0
 	for _, r := range returnsOf(res) {
 		if isNilConst(r.Results[1]) {
@@ -1281,11 +1282,11 @@ func (c *Ctx) checkM11(mi *modelInfo) {
 				lk, _ = ex.Tuple.(*ssa.Lookup)
 			}
 			if lk == nil || !lk.CommaOk || lk.Index != res.Params[0] {
-				bad = "hit path does not return the table entry of the requested opset id"
+				badHit = "hit path does not return the table entry of the requested opset id"
 				continue
 			}
 			if ld, ok := lk.X.(*ssa.UnOp); !ok || !isLibGlobal(ld.X) {
-				bad = "opset table is not a package-level map"
+				badHit = "opset table is not a package-level map"
 				continue
 			}
 			okv := false
@@ -1295,23 +1296,89 @@ func (c *Ctx) checkM11(mi *modelInfo) {
 				}
 			}
 			if !okv {
-				bad = "table entry returned without a hit"
+				badHit = "table entry returned without a hit"
 				continue
 			}
 			hit++
 		} else {
 			if !isNilConst(r.Results[0]) {
-				bad = "miss path returns a getter as well (a default opset is substituted)"
+				badMiss = "miss path returns a getter as well (a default opset is substituted)"
 				continue
 			}
 			if sentinel == nil || !c.errWraps(r.Results[1], sentinel, 0) || !c.definitelyNonNilErr(r.Results[1], r.Block(), 0) {
-				bad = "miss path does not return ops.ErrUnsupportedOpsetVersion"
+				badMiss = "miss path does not return ops.ErrUnsupportedOpsetVersion"
 				continue
 			}
 			miss++
 		}
 	}
-	c.decide(bad == "" && hit > 0 && miss > 0, "R5", key, c.pos(res.Pos()), "hit: table[id]; miss: (nil, ErrUnsupportedOpsetVersion)", firstNonEmpty(bad, "resolver lacks a hit or miss path"))
+	if badHit == "" && hit == 0 {
+		badHit = "resolver lacks a hit path"
+	}
+	if badMiss == "" && miss == 0 {
+		badMiss = "resolver lacks a miss path"
+	}
+	// which id resolves to which getter, over a finite table of ids, however the table is stored and searched
+	if known, tbad := c.resolverTable(res); known {
+		badHit = tbad
+	}
+	bad := firstNonEmpty(badHit, badMiss)
+	c.decide(bad == "", "R5", key, c.pos(res.Pos()), "hit: table[id]; miss: (nil, ErrUnsupportedOpsetVersion)", bad)
+}
+
+// resolverTable walks the opset resolver for the ids -1..40: an id resolves exactly when the library has an
+// operator package for it (.../ops/opset<id>), and then to a getter declared in that package; every other id gives
+// (nil, error). known=false when an id cannot be followed to one outcome.
+func (c *Ctx) resolverTable(res *ssa.Function) (known bool, bad string) {
+	p0 := &pinterp{c: c, budget: 3000000, objects: true}
+	heap0 := p0.initGlobals(newHeap(), modPath)
+	if len(p0.initFailed) > 0 {
+		if os.Getenv("R5TRACE") != "" {
+			fmt.Println("R5TRACE init failed", p0.initFailed)
+		}
+		return false, ""
+	}
+	hits := 0
+	cov := newCover(res)
+	for id := int64(-1); id <= 40; id++ {
+		wantPkg := fmt.Sprintf("%s/ops/opset%d", modPath, id)
+		_, exists := c.pkgByPath[wantPkg]
+		p := &pinterp{c: c, budget: 100000, objects: true, globals: p0.globals, cover: cov, trace: os.Getenv("R5TRACE") != "" && id == 13}
+		r, _ := p.run(res, []pval{{k: pInt, i: id}}, 0, heap0.clone())
+		if p.aborted || len(r) != 2 {
+			return false, ""
+		}
+		switch {
+		case r[1].k == pNil && r[0].k == pFunc && r[0].fn != nil:
+			if !exists {
+				return true, fmt.Sprintf("opset %d, for which the library has no operator package, resolves to %s (a default opset is substituted)", id, fname(r[0].fn))
+			}
+			if fnPkgPath(r[0].fn) != wantPkg {
+				return true, fmt.Sprintf("opset %d resolves to %s, a getter of another opset", id, fname(r[0].fn))
+			}
+			hits++
+		case nonNilKind(r[1].k) && r[0].k == pNil:
+			if exists {
+				return true, fmt.Sprintf("opset %d is refused although the library has the operator package %s", id, wantPkg)
+			}
+		case nonNilKind(r[1].k) && r[0].k == pFunc:
+			return true, fmt.Sprintf("opset %d: a getter is returned together with an error", id)
+		default:
+			if os.Getenv("R5TRACE") != "" {
+				fmt.Println("R5TRACE unknown outcome", id, r)
+			}
+			return false, ""
+		}
+	}
+	if hits == 0 {
+		return true, "no opset id resolves to a getter"
+	}
+	if unc := cov.uncovered(c); len(unc) > 0 {
+		c.declined("resolver table", unc)
+		return false, ""
+	}
+	c.counts["R5:M11:resolver-table-cells"] = 42
+	return true, ""
 }
 
 func isLibGlobal(v ssa.Value) bool {
